@@ -4,8 +4,8 @@ set -e
 cd "$(dirname "$0")"
 export GOFLAGS=-mod=mod GOPROXY=off GOSUMDB=off GOTOOLCHAIN=local
 mkdir -p .bin evidence replays
-( cd lean && lake build CtyModel ctydrv )
+( cd extract && go build -o ../.bin/ctyextract . && ../.bin/ctyextract -repo /repo -lean ../lean/CtyModel/Generated -harness ../harness )
 cp /repo/go.sum harness/go.sum
-( cd harness && go build -tags verif -o ../.bin/ctyharness . )
-if [ -d extract ]; then ( cd extract && go build -o ../.bin/ctyextract . ); fi
+( cd harness && go build -tags verif -o ../.bin/ctyharness . && ../.bin/ctyharness -dumpspecs ../lean/CtyModel/Generated )
+( cd lean && lake build CtyModel ctydrv )
 echo setup ok
